@@ -207,6 +207,18 @@ def check_fact(run, fns, which, n, Pm, items, tag, Texp=None, Dexp=None):
             struct, want, items, tag)
     rec = np.einsum("nij,njk,nlk->nil", Tm, Dm, Tm)
     compare(run, f"{which}/reconstruct/{cell}", f"{name} D {name}^T differs from P", vecs(rec), vecs(Pm), items, tag)
+    # scale: c P is SPD with P, has the same unit-triangular factor and the pivots c D ("all SPD matrices": a bias covariance
+    # with sigma 1e-5 has entries of 1e-10) -- an ABSOLUTE pivot threshold breaks small-scale input
+    sub = slice(0, min(len(items), 300))
+    for c_ in (1e-10, 1e-13, 1e8):
+        Ts_, Ds_ = batch_call(f, [vecs(Pm[sub]) * c_])
+        run.count("scaled_evaluations", Ts_.shape[1])
+        with np.errstate(invalid="ignore"):
+            badT = ~(np.max(np.abs(Ts_ - T[:, :Ts_.shape[1]]), axis=0) <= 1e-9 * np.maximum(1.0, np.max(np.abs(T[:, :Ts_.shape[1]]), axis=0)))
+            badD = ~(np.max(np.abs(Ds_ / c_ - D[:, :Ds_.shape[1]]), axis=0) <= 1e-9 * np.maximum(1.0, np.max(np.abs(D[:, :Ds_.shape[1]]), axis=0)))
+        for k in np.nonzero(badT | badD)[0][:20]:
+            run.violation(f"{which}/scale_invariance/{cell}", f"the factorisation of {c_:g} * P is not ({name}, {c_:g} * D) of the factorisation of P",
+                          {tag: items[k], "scale": c_, "T_scaled": Ts_[:, k].tolist(), "T": T[:, k].tolist()})
     # the same matrices handed over with their STRUCTURAL zeros (sparse SX, as a block-structured covariance is in
     # practice): a shortcut keyed on the input pattern must still account for the fill-in of the elimination
     from cyecca import util
